@@ -3865,6 +3865,38 @@ let init_chain s0 gvals dao_tokens =
       | None -> Some (s2, ups))
    | None -> None)
 
+(** val ed25519_key : bytes -> bool **)
+
+let ed25519_key pk =
+  Nat.eqb (length pk) (S (S (S (S (S (S (S (S (S (S (S (S (S (S (S (S (S (S
+    (S (S (S (S (S (S (S (S (S (S (S (S (S (S
+    O))))))))))))))))))))))))))))))))
+
+(** val refused_key : bool -> state -> msg -> bool **)
+
+let refused_key only_ed25519 s = function
+| MStake (pk, a, _) ->
+  (&&) ((&&) only_ed25519 (negb (ed25519_key pk)))
+    (match get_val s a with
+     | Some _ -> false
+     | None -> true)
+| _ -> false
+
+(** val deliver_tx_cp : bool -> state -> tx -> dres0 **)
+
+let deliver_tx_cp only_ed25519 s t =
+  if (||) ((||) (negb (msg_basic_ok t.t_msg)) (Z.ltb t.t_fee Z0))
+       t.t_sig_empty
+  then DRejected s
+  else (match ante s t with
+        | Some s1 ->
+          if refused_key only_ed25519 s1 t.t_msg
+          then DHandlerErr s1
+          else (match handle s1 t.t_msg with
+                | HOk s2 -> DOk s2
+                | HErr s2 -> DHandlerErr s2)
+        | None -> DRejected s)
+
 (** val uvarint_enc : nat -> z -> bytes **)
 
 let rec uvarint_enc fuel z0 =
